@@ -170,7 +170,7 @@ func init() {
 		Bubble: true,
 		Cases: func(tier string) int {
 			if tier == "thorough" {
-				return 860 + 1200
+				return 860 + 6000
 			}
 
 			return 400
